@@ -813,9 +813,23 @@ def split_time_changes(ctx):
          ('`%s` is reached only when %s does not suppress the split: after a suppressed change the next event is compared with a stale value' % (
              norm_text(tainted[0][0]), norm_text(tainted[0][1])) if tainted else
           'the running time signature / tempo is not updated unconditionally at the end of each change'), construct='running values updated last', definite=bool(tainted))
-  init = {norm_text(s) for s in fn.body if isinstance(s, ast.Assign)}
-  ok = {'current_numerator = 4', 'current_denominator = 4', 'current_qpm = constants.DEFAULT_QUARTERS_PER_MINUTE'} <= init
-  ctx.ob('SPLIT/time/initial', fi, fn, ok, 'the running values start at 4/4 and the default tempo' if ok else 'running values do not start at 4/4 / default qpm', construct='initial 4/4, default qpm')
+  # the running values before the first change are the implicit 4/4 and the default tempo - constants, not something read off the sequence
+  dq = U.const_value(ast.parse('constants.DEFAULT_QUARTERS_PER_MINUTE', mode='eval').body)
+  for name_, want_ in (('current_numerator', 4), ('current_denominator', 4), ('current_qpm', dq)):
+    d_ = U.reaching_def(fn, name_, loop)
+    cons_ = 'before the first change %s is the implicit default' % name_
+    if d_ is None:
+      why_ = 'cannot classify: the value of %s before the loop over the changes is not a plain assignment' % name_
+      ctx.ob('SPLIT/time/initial', fi, fn, False, why_, construct=cons_, unknown=why_)
+      continue
+    dx_ = U.expand_locals(fn, d_, at=loop)
+    v_ = U.const_value(dx_)
+    reads_input = any(isinstance(n_, ast.Name) and n_.id in fi.params() for n_ in ast.walk(dx_))
+    ok = v_ is not None and want_ is not None and v_ == want_
+    ctx.ob('SPLIT/time/initial', fi, fn, ok, '%s starts at %s' % (name_, want_) if ok else
+           ('%s starts at %s, a value read off the sequence: a first tempo / time signature mark later than time 0 that differs from the implicit default is a change '
+            '(the piece begins at 120 qpm in 4/4), but it is compared with itself and no split is made' % (name_, norm_text(d_)[:70]) if reads_input else
+            '%s starts at %s, not at the implicit default %s' % (name_, norm_text(d_)[:50], want_)), construct=cons_, definite=reads_input or (v_ is not None and want_ is not None))
   g = [s for s in loop.body if isinstance(s, ast.If) and has_cmp([s.test], '%s.time > valid_split_times[-1]' % v)]
   ctx.ob('SPLIT/time/increasing', fi, g[0] if g else loop, len(g) == 1, 'a split is added only after the previous split' if g else
          'split times may repeat or decrease', construct='split only if change.time > valid_split_times[-1]')
